@@ -238,6 +238,12 @@ def to_py(v, ctx):
     if t == 'bytes':
         return bytes.fromhex(v['hex'])
     if t == 'dtype':
+        if v.get('as') == 'str':          # the dtype's name as a string ('float32')
+            return v['v']
+        if v.get('as') == 'char':         # its array-protocol string ('<i4')
+            return np.dtype(v['v']).str
+        if v.get('as') == 'pytype':       # the Python type numpy maps to it (float, int)
+            return {'float64': float, 'int64': int}[v['v']]
         return np.dtype(v['v']) if v.get('as') == 'dtype' else getattr(np, v['v'])
     raise RuntimeError(f'unknown valspec {t}')
 
